@@ -336,9 +336,15 @@ def NoShape.key : NoShape → Nat
   | .shape id _ _ => id
   | .cluster v .. => v
 
-/-- `Box::rectangleByApplyingBox` -/
+/-- `Rectangle::isValid` -/
+def Rect.isValid (r : Rect) : Bool := decide (r.minX ≤ r.maxX) && decide (r.minY ≤ r.maxY)
+
+/-- `Box::rectangleByApplyingBox`: an invalid rectangle (e.g. the never-computed bounds of a cluster
+    nested inside a rectangle-based cluster) is returned unchanged -/
 def applyBox (r : Rect) (mMinX mMaxX mMinY mMaxY : Rat) : Rect :=
-  { minX := r.minX - mMinX, maxX := r.maxX + mMaxX, minY := r.minY - mMinY, maxY := r.maxY + mMaxY }
+  if r.isValid then
+    { minX := r.minX - mMinX, maxX := r.maxX + mMaxX, minY := r.minY - mMinY, maxY := r.maxY + mMaxY }
+  else r
 
 /-- half width for x, half height for y -/
 def halfOf (d : Dim) (hw hh : Rat) : Rat :=
@@ -405,6 +411,13 @@ def NocState.addCluster (st : NocState) (c : NoShape) (childNodes : List Nat) (g
 
 def NocState.seps (st : NocState) (bbs : Array Rect) (dim : Dim) : List Sep :=
   nonOverlapSeps bbs dim (st.entries.map (·.1)) st.pairs
+
+/-- `RectangularCluster::generateFixedRectangleConstraints` in one dimension, for a cluster built from
+    node rectangle `rect` (half size `half` in that dimension) with boundary variables `v`, `v+1`:
+    two equalities pinning the cluster box to the container rectangle -/
+def fixedRectSeps (v rect : Nat) (half : Rat) : List Sep :=
+  [{ left := v, right := rect, gap := half, eq := true },
+   { left := rect, right := v + 1, gap := half, eq := true }]
 
 /-- `xSepL += 10e-10`: the tiny extra separation makeFeasible asks for -/
 def feasibleEps : Rat := 1 / 1000000000
